@@ -21,12 +21,21 @@
   as multisets). The zone side is C06's theorem (`Rel.reachable`, `lookup_eq_spec`), no longer a
   hypothesis.
 
+  Recorded correction: the first version of `C05_full` quantified over *arbitrary* writer states;
+  that statement was too strong (a writer already in the additional section answers `OutOfOrder`
+  to the first `add_answer_rrset` without any `Truncation`, and the response is then SERVFAIL
+  whatever the zone says). `C05_full` now quantifies over the states in which `handle_query` is
+  entered (`QueryReady`), and `C05_entry_state_handle_message` shows that the state
+  `handle_message_with_context` hands over is one.
+
   The selection of the zone (longest suffix match in the catalog, `handle_query`) is C22 + C07; the
   lifting from the operation log to the decoded octets is C12 (the writer serialises what it was
   given); both are checked end to end on every run by the `audans` oracle, which decodes the real
   response with `specDecodeMsg` and compares it with `specResolve` as multisets.
 -/
 import QV.Proofs.ServerAnswer
+import QV.Proofs.ServerAnswerCap
+import QV.Proofs.ServerAnswerEntry
 import QV.Proofs.WriterFaithful
 
 namespace QV.C05
@@ -35,28 +44,30 @@ open QV QV.Writer QV.Server QV.Zone QV.Spec.Zone QV.Spec.Resolve QV.ServerAnswer
 /-- no logged record-adding call reported `Truncation` -/
 def NoTruncation (evs : List Ev) : Prop := ∀ a, Ev.add a ∈ evs → a.res ≠ .err .Truncation
 
-/-- **The property at full strength** (for one zone of the catalog; `qname` at or below its apex,
-    which is what the catalog lookup guarantees): whenever no writer operation reports
-    `Truncation`, `handle_non_axfr_query` succeeds and the records it added, its RCODE, AA (and TC
-    = clear) are exactly the resolution the specification prescribes. -/
+/-- **The property at full strength** (for one zone of the catalog, built through the API by any
+    add sequence; `qname` at or below its apex, which is what the catalog lookup guarantees; the
+    writer in the state in which `handle_query` is entered — `QueryReady`: reached from
+    `Writer::new` with a limit ≤ 65 535 by the header setters, `add_question qname`, `set_edns`,
+    `set_limit`, `set_tsig`): whenever no writer operation reports `Truncation`,
+    `handle_non_axfr_query` succeeds and the records it added, its RCODE, AA (and TC = clear) are
+    exactly the resolution the specification prescribes. -/
 def C05_full : Prop :=
   ∀ (eqv : Eqv) (apex : NameL.Name) (cls : Nat) (glue : GluePolicy) (rs : List Rec)
     (qname : WName) (qtype : Nat) (tr : Transport) (w : Writer.State),
-    Folded apex → apex <:+ fold qname →
+    Folded apex → (unfold apex).WF → qname.WF → apex <:+ fold qname → QueryReady w qname →
     NoTruncation (handleNonAxfrQueryL (build eqv (Zone.new apex cls glue) rs) qname qtype tr ⟨w, []⟩).2.log →
       (handleNonAxfrQueryL (build eqv (Zone.new apex cls glue) rs) qname qtype tr ⟨w, []⟩).1 = .ok () ∧
       view (handleNonAxfrQueryL (build eqv (Zone.new apex cls glue) rs) qname qtype tr ⟨w, []⟩).2.log
         = View.ofResolution (specResolve (specBuild eqv ⟨apex, cls, glue, []⟩ rs) (fold qname) qtype)
 
-/-! ### the main theorem
+/-! ### the refinement theorem (`C05` at the end of the file derives `C05_full` from it)
 
-  What is proved is `C05_full` with `NoTruncation` strengthened to `NoCapErr` — every logged call
-  ended `Ok` or `InvalidRdata`, i.e. besides `Truncation` also `CountOverflow` (> 65 535 records in
-  a section: impossible below the 65 535-octet limit), `OutOfOrder` (the answer phase adds answer,
-  then authority, then additional records) and writer panics are excluded by hypothesis instead of
-  being shown unreachable — and under `WriterRdataFaithful`, a statement about the writer model
-  alone (the writer accepts a call only if the embedded names of its RDATA can be located, and
-  says `InvalidRdata` only if some cannot), left to the writer's owner (C12/C13) to discharge. -/
+  Proved first: the conclusion of `C05_full` under `NoCapErr` — every logged call ended `Ok` or
+  `InvalidRdata` — for *every* writer state, and under `WriterRdataFaithful` (the writer accepts a
+  call only if the embedded names of its RDATA can be located and says `InvalidRdata` only if some
+  cannot; discharged below by `writerRdataFaithful`, lean/QV/Proofs/WriterFaithful.lean).
+  `C05_only_truncation_matters` then shows that from the state in which `handle_query` is entered
+  `NoTruncation` implies `NoCapErr` (no `OutOfOrder`, no `CountOverflow`, no panic). -/
 
 theorem C05_answer_partial (hW : WriterRdataFaithful)
     (eqv : Eqv) (apex : NameL.Name) (cls : Nat) (glue : GluePolicy) (rs : List Rec)
@@ -302,5 +313,105 @@ theorem C05_negative_soa {z : Zone.Zone} {sz : SZone} (hR : Rel z sz) (ha : Fold
 /-- the specification's `renderable` is exactly the writer's acceptance condition -/
 theorem C05_renderable_is_writer_acceptance (c t : Nat) (rd : List UInt8) :
     renderable c t rd = rdataOK c t rd := renderable_eq_rdataOK c t rd
+
+/-! ### C05 at full strength: only `Truncation` is excluded
+
+  The other ways a writer call can go wrong are unreachable from the state in which `handle_query`
+  is entered (lean/QV/Proofs/ServerAnswerCap.lean):
+  * `OutOfOrder` — the answer phase adds answer, then authority, then additional records: the
+    writer's section never lies beyond that of the next call (`CapJ`, section ranks);
+  * `CountOverflow` — every accepted record occupies at least 10 octets (`nice_addRr`) below a
+    limit of at most 65 535 octets, so no section count exceeds 6 555 (`count_small`);
+  * panics — C01 (`handleNonAxfrQueryL_safe`, the hint contract of every call) shows the handler
+    does not panic, and a panic recorded in the log is a panic of the handler (`CapJ`);
+  * every other `writer::Error` — `add_*_rr(set)` fails only with `Truncation` or `InvalidRdata`
+    once the two above are excluded (`Nice`). -/
+
+/-- a log without `Truncation` is a log without any capacity error -/
+theorem C05_only_truncation_matters
+    (eqv : Eqv) (apex : NameL.Name) (cls : Nat) (glue : GluePolicy) (rs : List Rec)
+    (qname : WName) (qtype : Nat) (tr : Transport) (w : Writer.State)
+    (hawf : (unfold apex).WF) (hqwf : qname.WF) (hq : apex <:+ fold qname) (hw : QueryReady w qname)
+    (hnt : NoTruncation (handleNonAxfrQueryL (build eqv (Zone.new apex cls glue) rs) qname qtype tr ⟨w, []⟩).2.log) :
+    NoCapErr (handleNonAxfrQueryL (build eqv (Zone.new apex cls glue) rs) qname qtype tr ⟨w, []⟩).2.log := by
+  have hR := Rel.reachable eqv apex cls glue rs
+  have hap : (build eqv (Zone.new apex cls glue) rs).apex = apex := by
+    rw [hR.apex]; exact (specBuild_fields eqv _ rs).1
+  have hz : ServerSafety.ZoneOK (build eqv (Zone.new apex cls glue) rs) :=
+    ⟨by rw [hap]; exact hawf, ServerSafety.build_nodeOK eqv apex cls glue rs⟩
+  exact noCapErr_of_noTruncation _ hz qname hqwf qtype tr (by rw [hap]; exact hq) w hw hnt
+
+/-- **C05 holds at full strength.** -/
+theorem C05 : C05_full := by
+  intro eqv apex cls glue rs qname qtype tr w ha hawf hqwf hq hw hnt
+  exact C05_answer eqv apex cls glue rs qname qtype tr w ha hq
+    (C05_only_truncation_matters eqv apex cls glue rs qname qtype tr w hawf hqwf hq hw hnt)
+
+/-! ### non-vacuity of the entry state: `Writer::new` + `add_question` give `QueryReady` -/
+
+/-- `QueryReady` is what `handle_message` establishes: a fresh writer with a limit ≤ 65 535 … -/
+theorem C05_entry_state_new (buf : Bytes) (limit : Nat) (hl : limit ≤ 65535) (s : Writer.State)
+    (h : Writer.new buf limit = .ok s) : PreQuestion s := preQuestion_new buf limit hl s h
+
+/-- … kept by the header setters and (after the question) by every call of the scan phase … -/
+theorem C05_entry_state_scan (c : ServerSafety.Call) (s : Writer.State) (qn : WName) (h : QueryReady s qn)
+    (hp : c.Pre Writer.Den s) (hc : ScanCall c) : QueryReady (c.run s).2 qn := queryReady_call c s qn h hp hc
+
+/-- … and reached by `add_question` -/
+theorem C05_entry_state_question (qn : WName) (qt qc : Nat) (hwf : qn.WF) (s s' : Writer.State)
+    (h : PreQuestion s) (hok : Writer.addQuestion qn qt qc s = (.ok (), s')) : QueryReady s' qn :=
+  queryReady_addQuestion qn qt qc hwf s s' h hok
+
+/-- the writer state of the examples above is such a state -/
+example : QueryReady w0 ⟨[[120], lz]⟩ := by
+  have hq : (match Writer.new (Array.replicate 512 0) 512 with
+      | .ok w => (Writer.addQuestion ⟨[[120], lz]⟩ 1 1 w).1
+      | _ => .panic) = .ok () := by decide +kernel
+  rcases hn : Writer.new (Array.replicate 512 0) 512 with wn | e | _
+  · rw [hn] at hq
+    simp only [] at hq
+    have hw : w0 = (Writer.addQuestion ⟨[[120], lz]⟩ 1 1 wn).2 := by unfold w0; rw [hn]
+    refine queryReady_addQuestion ⟨[[120], lz]⟩ 1 1 (by decide) wn w0
+      (preQuestion_new _ 512 (by decide) wn hn) ?_
+    rw [hw, ← hq]
+  · rw [hn] at hq; cases hq
+  · rw [hn] at hq; cases hq
+
+/-! ### the composition: what `handle_message` hands to `handle_query` is `QueryReady`
+
+  `QV.ServerScan.scanAndDispatch_answer` (the scan's refinement theorem, C08/C09) shows that a
+  request that reaches a loaded zone (no TSIG record) runs `handle_query` on the explicit writer
+  state `arSt (qSt (hdrSt (ServerScan.w0 bufLen (lim0 tr)) id opcode rd) (some q)) tr payload e l`:
+  `Writer::new(buf, 512 | 65 535)`, `set_id`, `set_qr`, `set_opcode`, `set_rd`, `add_question`, and —
+  when the scan met an OPT record — `set_edns(payload)` and over UDP `set_limit(l)` with
+  `512 ≤ l ≤ max 512 payload` (`specTail_props`). -/
+
+open QV.ServerScan in
+/-- that state satisfies `QueryReady` (server payload size a 16-bit value ≥ 512, as the API enforces) -/
+theorem C05_entry_state_handle_message (bufLen : Nat) (tr : Transport) (payload id opcode : Nat) (rd : Bool)
+    (hbuf : minBuf tr payload ≤ bufLen) (hpay : 512 ≤ payload) (hpay16 : payload ≤ 65535)
+    (q : Spec.DQuestion) (qn : WName) (hp : WName.parse q.qname = some (qn, [])) (hw : qn.wire = q.qname)
+    (hl : q.qname.length ≤ 255) (hqwf : qn.WF) (e : Bool) (l : Nat) (hl1 : 512 ≤ l) (hl2 : l ≤ max 512 payload) :
+    QueryReady (arSt (qSt (hdrSt (ServerScan.w0 bufLen (lim0 tr)) id opcode rd) (some q)) tr payload e l) qn :=
+  queryReady_scan_state bufLen tr payload id opcode rd hbuf hpay hpay16 q qn hp hw hl hqwf e l hl1 hl2
+
+open QV.ServerScan in
+/-- **C05 on the state the scan hands over**: no hypothesis on the writer is left -/
+theorem C05_after_scan
+    (eqv : Eqv) (apex : NameL.Name) (cls : Nat) (glue : GluePolicy) (rs : List Rec) (qtype : Nat) (tr : Transport)
+    (bufLen payload id opcode : Nat) (rd : Bool)
+    (hbuf : minBuf tr payload ≤ bufLen) (hpay : 512 ≤ payload) (hpay16 : payload ≤ 65535)
+    (q : Spec.DQuestion) (qn : WName) (hp : WName.parse q.qname = some (qn, [])) (hw : qn.wire = q.qname)
+    (hl : q.qname.length ≤ 255) (hqwf : qn.WF) (e : Bool) (l : Nat) (hl1 : 512 ≤ l) (hl2 : l ≤ max 512 payload)
+    (ha : Folded apex) (hawf : (unfold apex).WF) (hq : apex <:+ fold qn)
+    (hnt : NoTruncation (handleNonAxfrQueryL (build eqv (Zone.new apex cls glue) rs) qn qtype tr
+      ⟨arSt (qSt (hdrSt (ServerScan.w0 bufLen (lim0 tr)) id opcode rd) (some q)) tr payload e l, []⟩).2.log) :
+    (handleNonAxfrQueryL (build eqv (Zone.new apex cls glue) rs) qn qtype tr
+      ⟨arSt (qSt (hdrSt (ServerScan.w0 bufLen (lim0 tr)) id opcode rd) (some q)) tr payload e l, []⟩).1 = .ok () ∧
+    view (handleNonAxfrQueryL (build eqv (Zone.new apex cls glue) rs) qn qtype tr
+      ⟨arSt (qSt (hdrSt (ServerScan.w0 bufLen (lim0 tr)) id opcode rd) (some q)) tr payload e l, []⟩).2.log
+      = View.ofResolution (specResolve (specBuild eqv ⟨apex, cls, glue, []⟩ rs) (fold qn) qtype) :=
+  C05 eqv apex cls glue rs qn qtype tr _ ha hawf hqwf hq
+    (C05_entry_state_handle_message bufLen tr payload id opcode rd hbuf hpay hpay16 q qn hp hw hl hqwf e l hl1 hl2) hnt
 
 end QV.C05
